@@ -32,7 +32,8 @@ def render(e, pow_sym="^"):
         if op == "num":
             return num_str(t[1]), 9
         if op == "id":
-            return t[1], 9
+            from . import build as _b
+            return ("S" if (_b.SNAME_ALT and t[1] == "S1") else t[1]), 9
         p = _PREC[op]
         if op == "sub" and t[1][0] == "num" and list(t[1][1]) == [0, 1] and t[2][0] in ("pow", "mul"):
             # 0 - x^n and 0 - a*b are written with a unary minus, "-x^n" / "-a*b" (templates "negsq", "negsum")
